@@ -19,7 +19,7 @@ def BOUNDS(tier):
     q = tier == "quick"
     return dict(M_N=10 if q else 11, D_K=4 if q else 5, D_lengths=[1, 2], D_gaps=[0, 1],
                 D6="none" if q else "all 10395 diagrams x all-ones lengths x gap 0",
-                special="ladder, path, star, two triangles sharing a stem, two components; 7 stems%s" % ("" if q else " and 8 stems"))
+                special="ladder, path, star, two independent ladders; 7 stems%s" % ("" if q else " and 8 stems"))
 
 
 def _from_arcs(arcs, name):
